@@ -33,9 +33,9 @@ LEVEL_NOTE = (
 PREIMPORT = ("pharmpy.model", "pharmpy.modeling")
 RULE = (
     "all datasets whose individuals are record sequences over the layout's record alphabet (record kind x time "
-    "increment {0,1}; reset records may also restart time at 0) up to the length bound, for 12 column layouts "
+    "increment {0,1}; reset records may also restart time at 0) up to the length bound, for 13 column layouts "
     "(AMT only, clock-time strings, +MDV, +EVID, +EVID+MDV, +CMT, +EVID+CMT, +EVID+ADMID, +ADDL/II (two alphabets), "
-    "+SS/II, +RATE); single individuals are enumerated fully; two/three-individual datasets put a fully enumerated "
+    "+SS/II, +RATE, +EVID with dropped decoy dose/event columns); single individuals are enumerated fully; two/three-individual datasets put a fully enumerated "
     "individual before/behind individuals from a fixed context menu, with ids in ascending and in non-sorted, "
     "non-contiguous order; plus a family of long tied individuals and a covariate family; a dataset is non-trivial when "
     "pharmpy accepted it and at least one derived value was compared; state = dataset prefix, transition = append one "
@@ -88,6 +88,7 @@ PLANS = {
         ("addl2", 3, 0, PAIRS_LITE, 0, False),
         ("ss", 4, 1, PAIRS_LITE, 0, False),
         ("rate", 3, 0, PAIRS_LITE, 0, False),
+        ("decoy", 3, 0, PAIRS_LITE, 0, False),
     ],
     "thorough": [
         ("base", 7, 4, PAIRS_FULL, 3, False),
@@ -102,6 +103,7 @@ PLANS = {
         ("addl2", 4, 3, PAIRS_LITE, 0, False),
         ("ss", 5, 3, PAIRS_FULL, 0, False),
         ("rate", 4, 2, PAIRS_LITE, 0, False),
+        ("decoy", 4, 2, PAIRS_LITE, 0, False),
     ],
 }
 
@@ -828,6 +830,12 @@ def run_shard(shard, tier):
         absorb(iss, _desc(layout, ids, indivs), f"{layout}:{R.render(layout, recs)}")
     _strip(res)
     return res
+
+
+def post(tot, tier):
+    """shards finish in a load-dependent order: make the merged lists order independent"""
+    tot["samples"] = sorted(set(tot["samples"]), key=lambda x: (len(x), x))
+    tot["outcomes"] = dict(sorted(tot["outcomes"].items()))
 
 
 def _strip(res):
